@@ -30,6 +30,7 @@ type OriginScript struct {
 	Parts      [][]byte
 	Gate       func(i int) bool // called before writing part i (i >= 1); false aborts
 	CloseAfter bool
+	RST        bool          // after the parts: reset the connection instead of closing it
 	Done       chan struct{} // closed when the origin finished writing
 }
 
@@ -57,6 +58,10 @@ func scriptedResponder(pc *PeerConn, r *RecordedReq) ([]byte, bool) {
 		if _, err := pc.Write(p); err != nil {
 			return nil, true
 		}
+	}
+	if sc.RST {
+		pc.RST()
+		return nil, true
 	}
 	return Handled, sc.CloseAfter
 }
